@@ -34,6 +34,7 @@ type c17Op struct {
 	POrigin string `json:"p_origin,omitempty"` // literal | var | concat | runtime
 	COrigin string `json:"c_origin,omitempty"`
 	Flag    bool   `json:"flag,omitempty"` // value of the computed append flag (appendVar)
+	Cond    int    `json:"cond,omitempty"` // appendVar: 1 + index into c17Conds of the expression that computes the flag (0: 1 < 2 resp. 2 < 1)
 	Spell   string `json:"spell,omitempty"` // "" | dot (./p) | updown (sub/../p): another spelling of the same file
 	ReadFrom string `json:"read_from,omitempty"` // c_origin "readof": the content is the inline expression read(<this file>), possibly the written file itself
 	// Comp: read/exists whose result is consumed inside a larger expression, next to another operand
@@ -44,6 +45,31 @@ type c17Op struct {
 	Path2 string `json:"path2,omitempty"`
 	Count int    `json:"count,omitempty"` // for/fordirect renderings of writes: the loop runs Count times (0 = once)
 }
+
+// c17Conds: boolean expressions with a known value, used as computed append flags.
+type c17CondT struct {
+	Expr string
+	Val  bool
+}
+
+var c17Conds = func() []c17CondT {
+	out := []c17CondT{}
+	for _, ab := range [][2]int{{1, 2}, {2, 1}, {2, 2}, {0, 0}, {-1, 1}, {10, 9}} {
+		a, b := ab[0], ab[1]
+		vals := map[string]bool{"<": a < b, "<=": a <= b, ">": a > b, ">=": a >= b, "==": a == b, "!=": a != b}
+		for _, op := range []string{"<", "<=", ">", ">=", "==", "!="} {
+			e := fmt.Sprintf("%d %s %d", a, op, b)
+			out = append(out, c17CondT{e, vals[op]}, c17CondT{"!(" + e + ")", !vals[op]}, c17CondT{"(" + e + ")", vals[op]})
+		}
+	}
+	out = append(out, c17CondT{"!true", false}, c17CondT{"!false", true}, c17CondT{"true && false", false}, c17CondT{"true || false", true},
+		c17CondT{"1 < 2 && 2 < 3", true}, c17CondT{"1 < 2 && 3 < 2", false}, c17CondT{"2 < 1 || 3 < 2", false}, c17CondT{"2 < 1 || 2 < 3", true},
+		c17CondT{"!(1 < 2 && 2 < 3)", false}, c17CondT{"!(2 < 1 || 3 < 2)", true},
+		c17CondT{"\"a\" == \"a\"", true}, c17CondT{"\"a\" != \"a\"", false}, c17CondT{"\"a\" == \"b\"", false}, c17CondT{"!(\"a\" == \"b\")", true},
+		c17CondT{"len(\"ab\") == 2", true}, c17CondT{"len(\"ab\") > 2", false}, c17CondT{"exists(\".\")", true}, c17CondT{"!exists(\".\")", false},
+		c17CondT{"exists(\"no-such-entry\")", false}, c17CondT{"1 + 1 == 2", true}, c17CondT{"2 * 3 < 6", false})
+	return out
+}()
 
 // spelled returns the path as the program spells it; the model always uses Path.
 func (o *c17Op) spelled() string {
@@ -357,7 +383,17 @@ func c17Gen(rng *gen.Rng, population string) *c17Hist {
 			files[p] = files[p] || render != "nottaken"
 		case k < 54:
 			fl := rng.Chance(50)
-			h.Ops = append(h.Ops, c17Op{Kind: "appendVar", Spell: spell, Path: p, Content: content(), Render: render, POrigin: origin(p), COrigin: origin(""), Flag: fl, Count: count})
+			cond := 0
+			if rng.Chance(60) {
+				// any comparison, negation or connective whose value is known: the flag is what the
+				// expression says, not how it is spelled
+				for tries := 0; tries < 50 && cond == 0; tries++ {
+					if k := rng.Intn(len(c17Conds)); c17Conds[k].Val == fl {
+						cond = k + 1
+					}
+				}
+			}
+			h.Ops = append(h.Ops, c17Op{Kind: "appendVar", Spell: spell, Path: p, Content: content(), Render: render, POrigin: origin(p), COrigin: origin(""), Flag: fl, Cond: cond, Count: count})
 			files[p] = files[p] || render != "nottaken"
 		case k < 74:
 			if !files[p] {
@@ -970,6 +1006,9 @@ func (h *c17Hist) render(seed uint64) []*c17Segment {
 				cond := "2 < 1"
 				if op.Flag {
 					cond = "1 < 2"
+				}
+				if op.Cond > 0 && op.Cond <= len(c17Conds) && c17Conds[op.Cond-1].Val == op.Flag {
+					cond = c17Conds[op.Cond-1].Expr
 				}
 				call = fmt.Sprintf("fl%d := %s\nwrite(%s, %s, fl%d)\n", id, cond, pn, cn, id)
 				if rng.Chance(40) {
